@@ -416,6 +416,164 @@ func TestLinkReal(t *testing.T) {
 				tr.name+" "+lp.name, sim.Result{Lines: r.Lines(), Status: status, Detail: detail})
 		}
 	}
+	// transport writes that fail under back-pressure (every transport with a network underneath)
+	if f := os.Getenv("VERIF_LINK_PATS"); f == "" || strings.Contains(","+f+",", ",pubsub,") {
+		for ti, tr := range realTrans() {
+			if tr.name == "inproc" {
+				continue
+			}
+			r := rec.New()
+			status, detail := "ok", ""
+			func() {
+				defer func() {
+					if x := recover(); x != nil {
+						status, detail = "panic", fmt.Sprint(x)
+					}
+				}()
+				linkWriteFail(tr, ti, r, func(w string) { r.Emit("lmsgbad", "what", w) })
+			}()
+			time.Sleep(20 * time.Millisecond)
+			badMu.Lock()
+			for _, w := range bad {
+				r.Emit("lmsgbad", "what", w)
+			}
+			bad = nil
+			badMu.Unlock()
+			out.Add(fmt.Sprintf("link-%s-wfail", tr.name), rec.Ev{"tran": tr.name, "pat": "pub-wfail"},
+				tr.name+" pub-wfail", sim.Result{Lines: r.Lines(), Status: status, Detail: detail})
+		}
+	}
+}
+
+// linkWriteFail: a publisher whose transport writes fail under back-pressure (C17 on the real transports: "never releases
+// a message twice, never touches one after releasing it").  Two raw subscribers connect and do not read; the publisher
+// sends until its per-connection senders are blocked in the transport write; one subscriber's connection is then cut
+// (reset), so that the write in progress fails; the application allocates and fills messages of the same size; the other
+// subscriber finally reads everything that was queued for it.  The ledger must see no release of a message that is not
+// live, and every publication the slow subscriber gets must be one of those published, intact.
+func linkWriteFail(tr realTran, k int, r *rec.Recorder, note func(string)) {
+	a, err := pub.NewSocket()
+	if err != nil {
+		panic(err)
+	}
+	defer a.Close()
+	_ = a.SetOption(mangos.OptionWriteQLen, 64)
+	var lo map[string]interface{}
+	if tr.opts != nil {
+		lo = tr.opts(true)
+	}
+	l, err := a.NewListener(tr.addr(9000+k), lo)
+	if err != nil {
+		panic(err)
+	}
+	if err = l.Listen(); err != nil {
+		panic(err)
+	}
+	r.Emit("link", "tran", tr.name, "pat", "pub-wfail", "limit", 0)
+	isWS := tr.name == "ws" || tr.name == "wss"
+	type sub struct {
+		c  net.Conn
+		ws *websocket.Conn
+	}
+	connect := func() sub {
+		if isWS {
+			d := websocket.Dialer{HandshakeTimeout: 3 * time.Second, Subprotocols: []string{"pub.sp.nanomsg.org"}}
+			if tr.name == "wss" {
+				d.TLSClientConfig, _ = mtest.GetTLSConfig(false)
+			}
+			c, _, err := d.Dial(l.Address(), nil)
+			if err != nil {
+				panic(fmt.Sprint("ws dial: ", err))
+			}
+			return sub{ws: c}
+		}
+		c, err := dialRaw(l.Address(), tr.name)
+		if err != nil {
+			panic(err)
+		}
+		_, _ = readN(c, 8, 6*time.Second)
+		_, _ = c.Write(goodHdr(0x21))
+		return sub{c: c}
+	}
+	slow, cut := connect(), connect()
+	time.Sleep(100 * time.Millisecond)
+	const size = 60000
+	sent := map[string]bool{}
+	for i := 0; i < 150; i++ {
+		b := payload(size, 20000+i+k*1000)
+		sent[digest(b)] = true
+		if err := a.Send(b); err != nil {
+			panic(err)
+		}
+	}
+	time.Sleep(300 * time.Millisecond)
+	// cut one subscriber: reset where the transport allows, so that the write in progress fails
+	under := cut.c
+	if cut.ws != nil {
+		under = cut.ws.UnderlyingConn()
+	}
+	if tc, ok := under.(*tls.Conn); ok {
+		under = tc.NetConn()
+	}
+	if tcp, ok := under.(*net.TCPConn); ok {
+		_ = tcp.SetLinger(0)
+	}
+	_ = under.Close()
+	time.Sleep(200 * time.Millisecond)
+	// the application goes on allocating: a buffer released too early is handed out again and overwritten
+	var later []*mangos.Message
+	for i := 0; i < 16; i++ {
+		m := mangos.NewMessage(size)
+		m.Body = append(m.Body, payload(size, 30000+i)...)
+		later = append(later, m)
+	}
+	// the slow subscriber reads what was queued for it
+	got := 0
+	for {
+		var b []byte
+		if slow.ws != nil {
+			_ = slow.ws.SetReadDeadline(time.Now().Add(1500 * time.Millisecond))
+			_, data, err := slow.ws.ReadMessage()
+			if err != nil {
+				break
+			}
+			b = data
+		} else {
+			n := 8
+			if tr.name == "ipc" {
+				n = 9
+			}
+			h, err := readN(slow.c, n, 1500*time.Millisecond)
+			if err != nil || len(h) < n {
+				break
+			}
+			sz := int(binary.BigEndian.Uint64(h[n-8:]))
+			if sz != size {
+				note(fmt.Sprintf("slow subscriber over %s: frame %d announces %d bytes, every publication has %d", tr.name, got+1, sz, size))
+				break
+			}
+			b, err = readN(slow.c, sz, 3*time.Second)
+			if err != nil || len(b) < sz {
+				break
+			}
+		}
+		got++
+		if !sent[digest(b)] {
+			note(fmt.Sprintf("slow subscriber over %s: publication %d (%d bytes) is none of the messages published", tr.name, got, len(b)))
+			break
+		}
+	}
+	if got == 0 {
+		note(fmt.Sprintf("slow subscriber over %s received nothing", tr.name))
+	}
+	for _, m := range later {
+		m.Free()
+	}
+	if slow.ws != nil {
+		_ = slow.ws.Close()
+	} else {
+		_ = slow.c.Close()
+	}
 }
 
 // ---------------------------------------------------------------------------
